@@ -27,9 +27,11 @@ def build(rng):
 def build_streaming(rng):
     """streaming producers, their FIFO consumers and unrelated tasks compete for few slots: a FIFO reader that arrives
     while the slots are taken has to wait like everybody else"""
-    mx = rng.randint(2, 4)
-    sp = t3.Spec(maxtasks=mx, bufsize=rng.choice([1, 128]))
     L = rng.randint(1, 2)
+    # every streamed item needs its producer and its consumer at the same time: with L producers holding L slots a consumer
+    # still has to find one (the guard of C17); fewer slots than L + 1 can deadlock by design
+    mx = L + 1 + rng.randint(0, 2)
+    sp = t3.Spec(maxtasks=mx, bufsize=rng.choice([1, 128]))
     paths = ["q%02d.txt" % j for j in range(L)]
     for p in paths:
         sp.files[p] = p + "\n"
@@ -121,5 +123,4 @@ def run(rep, tier, seed):
 
 
 def replay(r):
-    print(r.get("spec"))
-    return 0
+    return t3.replay_generic(r)
